@@ -148,6 +148,8 @@ def obj_contains(ex, ptr, c, item, node):
 
 
 def opaque_contains(ex, cont, item, node):
+    if cont.cls == 'NocaseDict' and ex.st.ghost.get('nd_written'):
+        ex.limit('NocaseDict membership after a NocaseDict store on the same path', node)
     if cont.cls == 'NocaseDict':
         # membership in a NocaseDict known only by reference: an uninterpreted predicate of (dictionary, lower(key));
         # sound only while the function under contract does not modify that dictionary (stores / deletes on an
@@ -347,6 +349,8 @@ def opaque_setattr(ex, base, attr, v, node):
 
 
 def opaque_getitem(ex, base, idx, node):
+    if base.cls == 'NocaseDict' and ex.st.ghost.get('nd_written'):
+        ex.limit('NocaseDict read after a NocaseDict store on the same path', node)
     if base.cls == 'NocaseDict':
         spec = ex.class_specs.get('NocaseDict') or {}
         vk = spec.get('__value__', 'ref')
@@ -365,6 +369,14 @@ def opaque_getitem(ex, base, idx, node):
 
 
 def opaque_setitem(ex, base, idx, v, node):
+    if base.cls == 'NocaseDict':
+        # a store into a NocaseDict known only by reference: the content is not tracked; any later read of a
+        # NocaseDict on this path is outside the model (see opaque_contains / opaque_getitem)
+        ex.st.ghost['nd_written'] = True
+        ex.used_assumptions.add('A-CIMOBJ: NocaseDict[key] = value does not raise for a string key (content not tracked)')
+        if not isinstance(ex.res(idx), VStr):
+            ex.limit('NocaseDict store with a non-string key', node)
+        return
     if base.cls:
         info = ex.find_class(base.cls)
         if info is not None and info.find_method('__setitem__'):
